@@ -102,8 +102,10 @@ def finish(ctx, level, coverage, assumptions):
               violations=len(new))
     ev['coverage']['known_findings_reproduced'] = sorted(seen)
     ev['coverage']['new_violation_keys'] = [k for k, _ in new][:50]
-    os.makedirs(os.path.join(OUT, 'evidence'), exist_ok=True)
-    with open(os.path.join(OUT, 'evidence', ctx.prop + '.json'), 'w') as f:
+    # extensions of the specification beyond the listed properties (ids X..) keep their reports apart from the evidence files
+    evdir = os.path.join(OUT, 'extras', 'evidence') if ctx.prop.startswith('X') else os.path.join(OUT, 'evidence')
+    os.makedirs(evdir, exist_ok=True)
+    with open(os.path.join(evdir, ctx.prop + '.json'), 'w') as f:
         json.dump(ev, f, indent=1, default=str)
     print('# %s %s: %d new violation key(s), %d known finding(s) reproduced, %.1fs'
           % (ctx.prop, ctx.tier, len(new), len(seen), time.time() - ctx.t0), flush=True)
